@@ -8,7 +8,7 @@
    final return are those the translator reads from the source (Gen_exitcode).  Used by C15.
    Definitions only. *)
 From Coq Require Import List Bool Arith ZArith.
-From Asphalt Require Import Gen.Gen_exitcode.
+From Asphalt Require Import Gen.Gen_exitcode Gen.Gen_sighandler.
 Import ListNotations.
 
 (* what run() gave back *)
@@ -62,8 +62,15 @@ Definition step (s : st) (e : ev) : st :=
   | Fail => if started s then s else St (stack s) false (first_cause (cause s) ByError) (signalled s) (crashed s) (runres s)
   | Hang => if started s then s else St (stack s) false (first_cause (cause s) ByCancel) (signalled s) (crashed s) (runres s)
   | Sig =>
-      if started s then St (stack s) true (cause s) true (crashed s) (runres s)
-      else St (stack s) false (first_cause (cause s) ByCancel) (signalled s) (crashed s) (runres s)
+      (* what handle_signals does on a signal, as read from the source on this run (Gen_sighandler): cancelling
+         the startup scope ends a startup still under way (and is without effect afterwards); setting the event
+         is what a started plain application waits for -- and an event set during a startup that was NOT
+         cancelled is still set when the startup has finished *)
+      if started s then
+        (if sig_sets_event then St (stack s) true (cause s) true (crashed s) (runres s) else s)
+      else if sig_cancels_startup then
+        St (stack s) false (first_cause (cause s) ByCancel) (signalled s) (crashed s) (runres s)
+      else St (stack s) false (cause s) (signalled s || sig_sets_event) (crashed s) (runres s)
   | Crash sid =>
       match crashed s with
       | Some _ => s
